@@ -12,7 +12,7 @@ spec() { d=$1; to=${2:-400}
     [ -f "$f" ] || continue
     b=$(basename "$f"); b=${b%.txt}; b=${b#_}
     p=$(grep -m1 '^package ' "$f" | awk '{print $2}')
-    case "$p" in pool) dest=engine/pool;; engine|engine_test) dest=engine;; parser|parser_test) dest=parser;; interpreter|interpreter_test) dest=interpreter;; scope) dest=scope;; util) dest=util;; *) dest=interpreter;; esac
+    case "$p" in pool) dest=engine/pool;; engine|engine_test) dest=engine;; parser|parser_test) dest=parser;; interpreter|interpreter_test) dest=interpreter;; scope) dest=scope;; util) dest=util;; tool|tool_test) dest=cli/tool;; pool_test) dest=engine/pool;; *) dest=interpreter;; esac
     cp "$f" "$wt/$dest/zz_$b"
     case " $pkgs " in *" ./$dest/ "*) ;; *) pkgs="$pkgs ./$dest/";; esac
     for t in $(grep -o '^func Test[A-Za-z0-9_]*' "$f" | awk '{print $2}'); do pat="${pat:+$pat|}^$t\$"; done
